@@ -150,3 +150,52 @@ func VerifC12_Conc_BoundTwoArrivals() {
 	verif.Assert("backlog-length-is-blocked-callers", int(lim.backlog.len()) == nBlocked)
 	verif.Reach("end")
 }
+
+// VerifC12_Conc_GrantedCallerHasLeftBacklog (event-order): one caller parked (arrival fixed before the
+// release), the holder completes: at the instant the caller's Acquire returns granted - checked
+// inside the caller's thread, under every interleaving with the rest of the releaser's unblock - the
+// backlog no longer contains it (the reported size is 0), and at quiescence the queue_size gauge read
+// through the registry equals the real number of elements.
+//
+//verif:harness property=C12 theory=bv tier=quick timers=off unwind=3 unwindcut=1 clock=frozen maxpaths=30000
+func VerifC12_Conc_GrantedCallerHasLeftBacklog() {
+	inner, _ := verifFullLimiter()
+	reg := &recRegistry{}
+	ord := []QueueOrdering{OrderingFIFO, OrderingLIFO}[verif.Choice("ordering", 2)]
+	lim := NewQueueBlockingLimiterFromConfig(inner, QueueLimiterConfig{Ordering: ord, MaxBacklogSize: 10, MaxBacklogTimeout: time.Hour, MetricRegistry: reg})
+	held, ok := lim.Acquire(context.Background())
+	verif.Assert("setup-holds-the-only-token", ok)
+	verif.SpawnAfter("w", func() {
+		l, granted := lim.Acquire(context.Background())
+		if granted && l != nil {
+			verif.Assert("granted-caller-has-left-the-backlog-on-return", lim.backlog.len() == 0)
+		}
+	})
+	verif.SpawnAfter("r", func() { held.OnSuccess() }, "w")
+	verif.Parallel()
+	size, okg := reg.gauges[core.MetricQueueSize]()
+	verif.Assert("queue-size-gauge-is-real-length", okg && size == float64(lim.backlog.list.Len()))
+	verif.Reach("end")
+}
+
+// VerifC20_Queue_GaugeAfterGiveUpRace (event-order): the queue_size gauge (read through a recording
+// registry, as a poller would) reports the real backlog length after a give-up has raced with a
+// hand-off: the waiter's own eviction and the releaser's eviction of the same element together
+// count once.
+//
+//verif:harness property=C20 theory=bv tier=quick unwind=3 unwindcut=1 clock=frozen maxpaths=30000
+func VerifC20_Queue_GaugeAfterGiveUpRace() {
+	inner, _ := verifFullLimiter()
+	reg := &recRegistry{}
+	q := NewQueueBlockingLimiterFromConfig(inner, QueueLimiterConfig{Ordering: OrderingFIFO, MaxBacklogSize: 10, MaxBacklogTimeout: time.Second, MetricRegistry: reg})
+	held, ok := q.Acquire(context.Background())
+	verif.Assert("setup-holds-the-only-token", ok)
+	verif.Spawn("w", func() { q.Acquire(context.Background()) })
+	verif.Spawn("r", func() { held.OnIgnore() })
+	verif.Parallel()
+	size, okg := reg.gauges[core.MetricQueueSize]()
+	limit, okl := reg.gauges[core.MetricQueueLimit]()
+	verif.Assert("queue-size-gauge-is-real-length-after-race", okg && size == float64(q.backlog.list.Len()))
+	verif.Assert("queue-limit-gauge-is-bound", okl && limit == 10)
+	verif.Reach("end")
+}
